@@ -198,7 +198,7 @@ CHECKS = {
         text=("Lean theorems (Edn.Properties.C13): any run of whitespace bytes, commas and closed comments in front of a form leaves the result of "
               "edn_read_value unchanged (value, end-relative ranges, remaining input, handler calls); a discarded form in front of a form is skipped "
               "and reading continues with the same call log; in discard mode no reader function ever appends to the call log (no handler runs); "
-              "trivia-only input reads as end of input (error at the end, or exactly the caller's end-of-input value). Tied to the code by pairs of "
+              "trivia-only input reads as end of input (error at the end, or exactly the caller's end-of-input value), and in every configuration the top-level end-of-input outcome occurs iff the input is top-level trivia (blanks, comments, complete discarded forms of the configuration's grammar). Tied to the code by pairs of "
               "plain and trivia-decorated renderings of generated values (every trivia kind at every gap, nested discards, tags with handlers), "
               "discarded tagged forms with failing handlers, and trivia-only documents, through library and model."),
         design_ref="DESIGN.md section 6, C13",
